@@ -710,3 +710,11 @@ def shipped_groups(repo):
                        key=lambda n: (len(n), n))
         out.append((a, [(n, z.read(n)) for n in names]))
     return out
+
+
+def freeze_heap():
+    """Called in the parent after the imports and before the pool forks: keeps the children's cyclic GC from walking (and so
+    copy-on-write duplicating) the imported modules' objects."""
+    import gc
+    gc.collect()
+    gc.freeze()
